@@ -15,7 +15,24 @@ common.setup_repo_import()
 from props import _resolver as RS  # noqa: E402
 
 
+def record_mode():
+    """one HISTORY in a fresh interpreter: the prelude, then the wrapped resolve of every level; prints the records"""
+    job = json.load(sys.stdin)
+    from props import c02
+    from cgsmiles.resolve import MoleculeResolver
+    with contextlib.redirect_stdout(io.StringIO()):
+        c02.run_prelude(job['prelude'])
+        try:
+            resolver = MoleculeResolver.from_string(job['s'], last_all_atom=job['laa'], legacy=job['legacy'])
+            out = {'recs': RS.record_all(resolver)}
+        except Exception as exc:            # noqa: BLE001
+            out = {'ctor_exc': type(exc).__name__}
+    sys.stdout.write('\n@@JSON@@' + json.dumps(out))
+
+
 def main():
+    if len(sys.argv) > 1 and sys.argv[1] == 'record':
+        return record_mode()
     inputs = json.load(sys.stdin)
     out = []
     for s, laa, legacy in inputs:
